@@ -11,10 +11,10 @@ pub fn prop() -> Prop {
     Prop {
         id: "C12",
         level: "model_checking",
-        rule: "observer bodies H (15: the bound name next to ., ^., ^^., ^^^., another variable, another macro, a selected name) x enclosing contexts X (12: top level, map, filter, fold, sort_by, map_values, pipe stage, pipe-then-map, flat_map, pipes with a stage that returns its input unchanged) x binding forms F (27: a macro whose body binds its own name again; a macro whose body is a pipe and is used as a stage of another pipe; set, define, a macro whose body names another macro or variable that is bound later, earlier or re-bound at the place of use, --set variable, --set macro, nested both ways, shadowing an inner/outer/--set binding, unused names, a macro whose body reads a variable bound outside/inside, a macro reading ^) x placement (binding outside X / inside the functional argument) x bound values (4) x position 1..4 among --select options x with/without --split-by x 2 inputs; plus the same expression repeated in four --select positions; plus 3..130 variables and macros in scope at once (nested set/define, or --set given that many times); 10..1100 expansions of one macro in one record, most yielding nothing; shadowing where the inner and the outer value are numerically close (2^64-1 / 2^64, -2^63 / -2^63-1, 2^53+1 / 2^53, 0 / -0.0); bindings made anew for every record and every element: around the documented example call of every function, each literal argument in turn is read from a variable (sigil and function spelling) and, in first position, from a macro bound to a member that changes A B A A / B A B B, against reading the member directly and against the record alone; nine nestings of a constant binding and one that changes from element to element (set/define/--set macro/--set variable/pipe), per element and per record; non-trivial = the body reads something the binding had to carry over (^, another binding, a selected name) or sits after --split-by / other selections; distinct by construction",
+        rule: "observer bodies H (15: the bound name next to ., ^., ^^., ^^^., another variable, another macro, a selected name) x enclosing contexts X (12: top level, map, filter, fold, sort_by, map_values, pipe stage, pipe-then-map, flat_map, pipes with a stage that returns its input unchanged) x binding forms F (27: a macro whose body binds its own name again; a macro whose body is a pipe and is used as a stage of another pipe; set, define, a macro whose body names another macro or variable that is bound later, earlier or re-bound at the place of use, --set variable, --set macro, nested both ways, shadowing an inner/outer/--set binding, unused names, a macro whose body reads a variable bound outside/inside, a macro reading ^) x placement (binding outside X / inside the functional argument) x bound values (4) x position 1..4 among --select options x with/without --split-by x 2 inputs; plus the same expression repeated in four --select positions; plus 3..130 variables and macros in scope at once (nested set/define, or --set given that many times); 10..1100 expansions of one macro in one record, most yielding nothing; shadowing where the inner and the outer value are numerically close (2^64-1 / 2^64, -2^63 / -2^63-1, 2^53+1 / 2^53, 0 / -0.0); bindings made anew for every record and every element: around the documented example call of every function, each literal argument in turn is read from a variable (sigil and function spelling) and, in first position, from a macro bound to a member that changes A B A A / B A B B, against reading the member directly and against the record alone; nine nestings of a constant binding and one that changes from element to element (set/define/--set macro/--set variable/pipe), per element and per record; macros that refer to themselves and end (11 functions folded over a linked record of depth 1..4 through a --set macro, a defined macro and the hand-unrolled expression, against the function on the values directly); non-trivial = the body reads something the binding had to carry over (^, another binding, a selected name) or sits after --split-by / other selections; distinct by construction",
         explanation: "each case is one run with two selections: the bound form and the form obtained by substituting the bound value / macro body by hand; both must have the same value (differential, no model needed) and both are also compared with the reference evaluator",
         assumptions: COMMON_ASSUMPTIONS.to_vec(),
-        guards: vec!["one-macro-body-expanded-under-several-bindings-in-one-expression", "function-argument-bound-anew-for-every-record", "constant-binding-inside-a-changing-one", "bound-name-followed-by-a-comma", "preset-variable-is-evaluated-before-any-record", "binding-names-beyond-ascii-letters", "many-macro-expansions-in-one-record", "shadowing-with-numerically-close-values", "many-bindings-in-scope", "parent-read-under-a-binding", "other-variable-survives", "other-macro-survives", "selected-name-survives", "after-split", "shadowing", "macro-body-reads-outer-variable", "pipe-stage-parent", "later-select-sees-same-parents"],
+        guards: vec!["macro-that-refers-to-itself-and-ends", "one-macro-body-expanded-under-several-bindings-in-one-expression", "function-argument-bound-anew-for-every-record", "constant-binding-inside-a-changing-one", "bound-name-followed-by-a-comma", "preset-variable-is-evaluated-before-any-record", "binding-names-beyond-ascii-letters", "many-macro-expansions-in-one-record", "shadowing-with-numerically-close-values", "many-bindings-in-scope", "parent-read-under-a-binding", "other-variable-survives", "other-macro-survives", "selected-name-survives", "after-split", "shadowing", "macro-body-reads-outer-variable", "pipe-stage-parent", "later-select-sees-same-parents"],
         budget_s: (100, 1800),
         single_worker: false,
         run,
@@ -527,6 +527,7 @@ fn run(ctx: &mut Ctx) {
     }
     ctx.level_done("preset-variables-with-expressions-that-mention-the-input");
     rebinding_around_every_function(ctx);
+    recursive_macros(ctx);
 }
 
 /// Bindings that are made again and again in one run - for every record and for every element of a list - around a call
@@ -700,4 +701,72 @@ pub fn rebinding_around_every_function(ctx: &mut Ctx) {
         }
     }
     ctx.level_done("bindings-made-anew-for-every-record-and-element(around-every-function;constant-inside-changing)");
+}
+
+/// Macros that refer to themselves and end (structural recursion over a linked record): `@rec` folds a function over
+/// `.value` of the record and `@rec` of `.next`. Every expansion is a use of the same call sites one inside the other;
+/// the value must be what the hand-unrolled expression gives, and what the function gives on the values directly.
+pub fn recursive_macros(ctx: &mut Ctx) {
+    let fns: [(&str, [&str; 4]); 11] = [
+        ("+", ["1", "20", "300", "4000"]),
+        ("*", ["2", "3", "5", "7"]),
+        ("-", ["100", "20", "3", "1"]),
+        ("/", ["64", "8", "4", "2"]),
+        ("\"+\"", ["\"1\"", "\"20\"", "\"300\"", "\"4000\""]),
+        ("\"*\"", ["\"2\"", "\"3\"", "\"5\"", "\"7\""]),
+        ("\"-\"", ["\"100\"", "\"20\"", "\"3\"", "\"1\""]),
+        ("concat", ["\"a\"", "\"b\"", "\"c\"", "\"d\""]),
+        ("and", ["true", "true", "false", "true"]),
+        ("or", ["false", "false", "true", "false"]),
+        ("default", ["null", "7", "8", "9"]),
+    ];
+    for (fi, (f, vals)) in fns.iter().enumerate() {
+        if !ctx.mine() {
+            continue;
+        }
+        for depth in 1..=4usize {
+            // the linked record: {"value": v0, "next": {"value": v1, "next": ...}}
+            let mut rec = String::new();
+            for v in vals.iter().take(depth).rev() {
+                rec = if rec.is_empty() { format!("{{\"value\": {v}}}") } else { format!("{{\"value\": {v}, \"next\": {rec}}}") };
+            }
+            // hand-unrolled: (default (f .value (| .next <inner>)) .value)
+            let mut unrolled = ".value".to_string();
+            for _ in 1..depth {
+                unrolled = format!("(default ({f} .value (| .next {unrolled})) .value)");
+            }
+            // the function on the values directly, innermost first
+            let mut direct = vals[depth - 1].to_string();
+            for v in vals.iter().take(depth - 1).rev() {
+                direct = format!("({f} {v} {direct})");
+            }
+            let body = format!("(default ({f} .value (| .next @rec)) .value)");
+            let body_fn = format!("(default ({f} .value (| .next (@ \"rec\"))) .value)");
+            let args = vec![
+                format!("--set=@rec={body}"),
+                "--select=@rec=preset".to_string(),
+                format!("--select=(define \"rec\" {body_fn} (@ \"rec\"))=defined"),
+                format!("--select={unrolled}=unrolled"),
+                format!("--select={direct}=direct"),
+                format!("--select=(map (push [] . .) @rec)=twice"),
+            ];
+            let case = Case::owned(args, format!("{rec}\n").into_bytes());
+            let o = ctx.run(&case);
+            ctx.case_done();
+            ctx.trace_validated();
+            ctx.nontrivial();
+            ctx.guard("macro-that-refers-to-itself-and-ends");
+            ctx.transition(&("recursive-macro", fi, depth));
+            let rows = json::parse_rows(&o.stdout, b"\n").unwrap_or_default();
+            let ok = o.res.is_ok()
+                && rows.len() == 1
+                && rows[0].get("direct").is_some()
+                && ["preset", "defined", "unrolled"].iter().all(|n| rows[0].get(n) == rows[0].get("direct"))
+                && rows[0].get("twice") == rows[0].get("direct").map(|d| V::Arr(vec![d.clone(), d.clone()])).as_ref();
+            if !ok {
+                ctx.violation("bound-form-differs-from-hand-substituted-form", &format!("a macro that refers to itself, folding {f} over a linked record of {depth}"), &[case.clone()], "preset = defined = unrolled = direct (a value); twice = [direct, direct]".into(), crate::drive::trunc(&o.brief(), 400));
+            }
+        }
+    }
+    ctx.level_done("macros-that-refer-to-themselves-and-end(11-functions-x-depth-1..4)");
 }
